@@ -644,3 +644,7 @@ def run(model, rep):
     rule_k(model, rep, table)
     c04.rule_f(model, Renamed(rep, {"C04.f": "C20.g-libpass-context"}))
     c12.rule_copies(model, Renamed(rep, {"C12.g": "C20.h-libpass-copies"}))
+    # the libpass pbkdf2 hashers read and write salt / digest through libpass' own copies of the base64 helpers: both families agree
+    # only while those copies decode what passlib's encode
+    c12.rule_alphabets(model, Renamed(rep, {"C12.f": "C20.l-b64-helpers", "C12.e": "C20.l-codec-alphabets"}, only=lambda s: s.startswith("libpass")))
+    rep.minimum("C20.l-b64-helpers", 8)
